@@ -279,6 +279,10 @@ def main(argv=None):
                 samples.append({"obligation": o["id"], "status": o["status"], "solver_s": o["time"]})
             if o["status"] == "proved":
                 n_dis += 1
+            elif o["status"] == "skipped":
+                # not attempted any further because other obligations of the function had already failed every
+                # round: undecided, not a violation
+                undecided.append(f"{o['id']}: {o.get('reason')}")
             else:
                 failing_clauses.setdefault((o["kind"], o["clause"]), []).append(o)
         # verdicts for failing obligations
@@ -381,10 +385,16 @@ def main(argv=None):
     if tool_errors:
         for e in tool_errors:
             print("CHECKER-ERROR:", e[:1500])
+    for u in undecided[:5]:
+        print("UNDECIDED:", u[:400])
+    if len(undecided) > 5:
+        print(f"UNDECIDED: ... and {len(undecided) - 5} more obligations")
     if violations:
         exit_code = 1
     elif tool_errors:
         exit_code = 3
+    elif undecided:
+        exit_code = 2
     wall = time.time() - t0
     assumptions = list(COMMON_ASSUMPTIONS)
     for c in contracts:
@@ -399,7 +409,21 @@ def main(argv=None):
     assumptions.extend(f"spec scan: {s}" for s in specs.assumption_scan if any(
         s.startswith(c.spec_module + ".py") for c in contracts))
     all_ok = (n_dis == n_obl and not tool_errors)
+    # the evidence is a record for the level claimed in MANIFEST.json; a proof-level record needs every obligation
+    # discharged - a run that falls short of that (a violation, or a recorded known finding) is recorded as `other`
     level = "proof" if all_ok else "other"
+    try:
+        with open(os.path.join(VERIF, "MANIFEST.json")) as mf:
+            for ch in json.load(mf).get("checks", []):
+                if ch.get("property_id") == prop:
+                    claimed = ch["level_claimed"]["category"]
+                    level = claimed if (claimed != "proof" or all_ok) else "other"
+    except Exception:
+        pass
+    distinct_obls = len({(o_.get("id")) for c2 in contracts for o_ in results.get(c2.fq, {}).get("obligations", [])
+                         if clause_in_property(c2, o_["clause"], o_["kind"], prop) and not o_.get("trivial")})
+    if custom and not custom.get("error"):
+        distinct_obls += len({o_["id"] for o_ in custom.get("obligations", [])})
     cov = {
         "obligations": n_obl, "discharged": n_dis,
         "checker_cmd": f"./vcheck {prop} --tier {tier}",
@@ -410,10 +434,12 @@ def main(argv=None):
         "backend": "z3-5.1 python API" + (" + custom AST obligations" if custom else ""),
         "known_finding_obligations": len(known_hit),
         "native_cross_check_evaluations": native_evals,
-        "evaluations": max(native_evals, 1),
-        "distinct_nontrivial": max(native_distinct, 2) if native_evals else 2,
-        "rule": "obligation = (function, clause, path); native cross-check input = random valid argument tuple, "
-                "distinct by repr",
+        "evaluations": n_obl + native_evals,
+        "distinct_nontrivial": distinct_obls + native_distinct,
+        "rule": "a case is either a proof obligation (function, clause kind, clause, path signature) generated from "
+                "the current source and handed to the solver - distinct by its id, counted as non-trivial unless its "
+                "goal simplifies to the constant true - or a native cross-check input (random argument "
+                "tuple satisfying the contract's precondition, run through the real function) - distinct by repr",
         "samples": samples or [{"note": "none"}],
         "explanation": (f"{n_dis}/{n_obl} obligations discharged; {len(known_hit)} obligation groups fail as recorded "
                         f"known findings; see KNOWN_FINDINGS.jsonl" if not all_ok else
